@@ -222,6 +222,23 @@ type mergeEntry struct {
 	ID                string // split ID which uploaded this file
 }
 
+// moreRecentThan tells which of two versions of a file wins: the one with the latest upload time.
+//
+// Equal upload times are disambiguated in some arbitrary but fixed way, so the outcome of a merge
+// never depends on the order in which versions are compared.
+func (m mergeEntry) moreRecentThan(other mergeEntry) bool {
+	switch {
+	case !m.Timestamp.Equal(other.Timestamp):
+		return m.Timestamp.After(other.Timestamp)
+	case m.ID != other.ID:
+		return m.ID > other.ID
+	case m.Hash != other.Hash:
+		return m.Hash > other.Hash
+	default:
+		return m.Size > other.Size
+	}
+}
+
 // mergeSplits merges all files from splits and resolves conflicts
 // then produces the output to the given channels.
 //
@@ -251,7 +268,11 @@ func (d *Diamond) mergeSplits(filePackedC chan<- filePacked, errorC chan<- error
 	go func(input <-chan bundleEntriesRes, output chan<- filePacked, interrupt <-chan struct{}, wg *sync.WaitGroup) {
 		defer wg.Done()
 
-		mergeIndex := iradix.New()
+		// collect every version of every path: at most one per split, the most recent one uploaded by that split.
+		//
+		// Nothing is decided before all file lists have been received: which version of a path wins, and which ones
+		// are conflicts, must not depend on the order in which the file lists of the splits happen to arrive.
+		versions := iradix.New()
 		for res := range input {
 			splitID := res.id
 			d.l.Debug("merge received batch", zap.String("from split", splitID), zap.Int("num_entries", len(res.bundleEntries.BundleEntries)))
@@ -264,73 +285,74 @@ func (d *Diamond) mergeSplits(filePackedC chan<- filePacked, errorC chan<- error
 				merged++
 				d.l.Debug("merge received file entry", zap.String("from split", splitID), zap.String("entry", file.NameWithPath))
 				key := []byte(file.NameWithPath)
-				obj, found := mergeIndex.Get(key)
+				candidate := mergeEntry{BundleEntry: file, ID: splitID}
+				obj, found := versions.Get(key)
 				if !found {
-					mergeIndex, _, _ = mergeIndex.Insert(key, mergeEntry{BundleEntry: file, ID: splitID})
+					versions, _, _ = versions.Insert(key, []mergeEntry{candidate})
 					continue
 				}
 
-				existing := obj.(mergeEntry)
-				if file.Hash == existing.Hash {
-					continue
-				}
-
+				existing := obj.([]mergeEntry)
 				if file.Timestamp.IsZero() {
-					d.l.Error("dev error: expecting files processed by diamond commit to have a timestamp", zap.Any("file", file))
-					panic("dev error: files should have a timing") // internal safeguard
-				}
-				if file.Timestamp.After(existing.Timestamp) {
-					// got a more recent file
-
-					switch {
-					case mode == model.IgnoreConflicts || splitID == existing.ID:
-						// ignore conflict: replace existing entry with newer version
-						// or: self-inflicted conflict, which is ignored
-						mergeIndex, _, _ = mergeIndex.Insert(key, mergeEntry{BundleEntry: file, ID: splitID})
-
-					case mode == model.ForbidConflicts:
-						conflicts++
-						errorC <- errorHit{
-							error: status.ErrCommitGivenUp.
-								WrapWithLog(d.l, status.ErrForbiddenConflict, zap.String("entry", file.NameWithPath)),
+					for _, other := range existing {
+						if other.Hash != file.Hash {
+							d.l.Error("dev error: expecting files processed by diamond commit to have a timestamp", zap.Any("file", file))
+							panic("dev error: files should have a timing") // internal safeguard
 						}
-						return
-
-					default:
-						// report conflict/checkpoint: add conflicting file to the bundle in some special location
-						// (e.g. .conflicts/{splitID}/{path}) and update the key with the newer file
-						existing.NameWithPath = d.deconflicter(splitID, existing.NameWithPath)
-						d.l.Debug("deconflicting", zap.String("from", file.NameWithPath), zap.String("to", existing.NameWithPath))
-						mergeIndex, _, _ = mergeIndex.Insert([]byte(existing.NameWithPath), existing)
-						// overwrite with new version
-						mergeIndex, _, _ = mergeIndex.Insert(key, mergeEntry{BundleEntry: file, ID: splitID})
-						conflicts++
-					}
-				} else {
-					// got an older file
-
-					if splitID == existing.ID {
-						// ignored self-inflicted conflict
-						continue
-					}
-
-					switch mode {
-					case model.EnableConflicts, model.EnableCheckpoints:
-						newEntry := file
-						newEntry.NameWithPath = d.deconflicter(splitID, existing.NameWithPath)
-						d.l.Debug("deconflicting", zap.String("from", file.NameWithPath), zap.String("to", newEntry.NameWithPath))
-						mergeIndex, _, _ = mergeIndex.Insert([]byte(d.deconflicter(splitID, file.NameWithPath)), mergeEntry{BundleEntry: newEntry, ID: splitID})
-						conflicts++
-
-					case model.ForbidConflicts:
-						conflicts++
-						errorC <- errorHit{
-							error: status.ErrCommitGivenUp.
-								WrapWithLog(d.l, status.ErrForbiddenConflict, zap.String("entry", file.NameWithPath)),
-						}
-						return
 					}
 				}
+				sameSplit := -1
+				for i, other := range existing {
+					if other.ID == splitID {
+						sameSplit = i
+						break
+					}
+				}
+				switch {
+				case sameSplit < 0:
+					versions, _, _ = versions.Insert(key, append(existing, candidate))
+				case candidate.moreRecentThan(existing[sameSplit]):
+					// self-inflicted conflict, which is ignored: the split's latest version stands for the split
+					existing[sameSplit] = candidate
+				}
+			}
+		}
+
+		// resolve: for every path, the most recent version wins. Versions from other splits with some different
+		// content are conflicts. Versions with the same content as the winner are never conflicts.
+		mergeIndex := iradix.New()
+		iterator := versions.Root().Iterator()
+		for key, obj, ok := iterator.Next(); ok; key, obj, ok = iterator.Next() {
+			candidates := obj.([]mergeEntry)
+			winner := candidates[0]
+			for _, candidate := range candidates[1:] {
+				if candidate.moreRecentThan(winner) {
+					winner = candidate
+				}
+			}
+			mergeIndex, _, _ = mergeIndex.Insert(key, winner)
+
+			if mode == model.IgnoreConflicts {
+				continue
+			}
+			for _, candidate := range candidates {
+				if candidate.ID == winner.ID || candidate.Hash == winner.Hash {
+					continue
+				}
+				conflicts++
+				if mode == model.ForbidConflicts {
+					errorC <- errorHit{
+						error: status.ErrCommitGivenUp.
+							WrapWithLog(d.l, status.ErrForbiddenConflict, zap.String("entry", winner.NameWithPath)),
+					}
+					return
+				}
+				// report conflict/checkpoint: add the losing file to the bundle in some special location
+				// (e.g. .conflicts/{splitID}/{path}), for the split which uploaded it
+				loser := candidate
+				loser.NameWithPath = d.deconflicter(candidate.ID, winner.NameWithPath)
+				d.l.Debug("deconflicting", zap.String("from", winner.NameWithPath), zap.String("to", loser.NameWithPath))
+				mergeIndex, _, _ = mergeIndex.Insert([]byte(loser.NameWithPath), loser)
 			}
 		}
 
@@ -343,8 +365,8 @@ func (d *Diamond) mergeSplits(filePackedC chan<- filePacked, errorC chan<- error
 
 		// now dump the merged index as output
 		t0 = time.Now()
-		iterator := mergeIndex.Root().Iterator()
-		for _, obj, ok := iterator.Next(); ok; _, obj, ok = iterator.Next() {
+		outputIterator := mergeIndex.Root().Iterator()
+		for _, obj, ok := outputIterator.Next(); ok; _, obj, ok = outputIterator.Next() {
 			bundleEntries++
 			existing := obj.(mergeEntry)
 			d.l.Debug("merge sending", zap.String("entry", existing.NameWithPath))
